@@ -4,6 +4,7 @@
   multipitch.compute_accuracy, compute_err_score
   chord.weighted_accuracy
   tempo.detection
+  alignment.absolute_error, percentage_correct, percentage_correct_segments
 
 This file maps syntax only (Python ast, mir_eval is never imported; anything outside the fragment raises
 TranslationError). What an operator does on each kind of value (dtypes, broadcasting, mask lengths, division
@@ -22,7 +23,9 @@ Accepted fragment
                np.sum(x) x.sum() sum(x), np.count_nonzero(x), np.abs abs np.floor, np.logical_and/or,
                np.minimum/np.maximum, np.min([a, b], axis=0) / np.max([a, b], axis=0), min(a, b) / max(a, b),
                np.min(x) np.max(x) x.min() x.max(), np.any np.all x.any() x.all(), len(x) x.size x.shape[0],
-               float(x) bool(x), x.astype(float) np.asarray(x, dtype=float), x[<mask expr>], x[i] on a list.
+               float(x) bool(x), x.astype(float) np.asarray(x, dtype=float), x[<mask expr>], x[i] on a list,
+               None, x is None / x is not None, x[lo:hi] and x[-k] with literal bounds, np.median np.mean,
+               np.concatenate([a, b, ...]) of arrays and lists of numbers.
 What this file decides itself: which variable a name denotes (scoping), the fixed length of Python lists, the
 unrolling count (made explicit as SAssume and discharged in the proof), and freshness of in-place targets.
 """
@@ -40,9 +43,12 @@ SPEC = [('melody', 'voicing_recall', 'gen_voicing_recall'),
         ('multipitch', 'compute_accuracy', 'gen_compute_accuracy'),
         ('multipitch', 'compute_err_score', 'gen_compute_err_score'),
         ('chord', 'weighted_accuracy', 'gen_weighted_accuracy'),
-        ('tempo', 'detection', 'gen_detection')]
+        ('tempo', 'detection', 'gen_detection'),
+        ('alignment', 'absolute_error', 'gen_absolute_error'),
+        ('alignment', 'percentage_correct', 'gen_percentage_correct'),
+        ('alignment', 'percentage_correct_segments', 'gen_percentage_correct_segments')]
 VALIDATORS = {('melody', 'validate_voicing'): 'X_melody_validate_voicing', ('melody', 'validate'): 'X_melody_validate',
-              ('tempo', 'validate'): 'X_tempo_validate'}
+              ('tempo', 'validate'): 'X_tempo_validate', ('alignment', 'validate'): 'X_alignment_validate'}
 UNROLL = {('tempo', 'detection', 'reference_tempi'): 2}      # validate_tempi: tempi.size == 2
 EXN = {'ValueError', 'TypeError', 'KeyError', 'IndexError', 'ZeroDivisionError'}
 BIN = {ast.Add: 'BAdd', ast.Sub: 'BSub', ast.Mult: 'BMul', ast.Div: 'BDiv'}
@@ -75,6 +81,8 @@ class Fn:
 
     # ---------- expressions ----------
     def num(self, c, node):
+        if c is None:
+            return 'ENone'
         if isinstance(c, bool):
             return '(EBool %s)' % ('true' if c else 'false')
         if isinstance(c, int) and abs(c) < 2 ** 62:
@@ -122,6 +130,12 @@ class Fn:
             if type(n.op) not in BIN:
                 fail('unsupported binary operator', n)
             return '(EBin %s %s %s)' % (BIN[type(n.op)], self.ex(n.left), self.ex(n.right))
+        if isinstance(n, ast.Compare) and len(n.ops) == 1 and isinstance(n.ops[0], (ast.Is, ast.IsNot)):
+            c = n.comparators[0]
+            if not (isinstance(c, ast.Constant) and c.value is None):
+                fail('`is` is accepted against None only', n)
+            e = '(EIsNone %s)' % self.ex(n.left)
+            return e if isinstance(n.ops[0], ast.Is) else '(EPyNot %s)' % e
         if isinstance(n, ast.Compare):
             if len(n.ops) != 1 or type(n.ops[0]) not in CMP:
                 fail('unsupported comparison', n)
@@ -148,6 +162,8 @@ class Fn:
                 i = s.value
             elif isinstance(s, ast.Name) and s.id in self.consts:
                 i = self.consts[s.id]
+            if i is not None and i < 0 and not (isinstance(n.value, ast.Name) and n.value.id in self.lists):
+                return '(EItemZ %s (%d)%%Z)' % (self.ex(n.value), i)
             if i is not None:
                 if i < 0:
                     fail('negative index', n)
@@ -156,7 +172,24 @@ class Fn:
                         fail('list index out of range', n)
                     return '(EVar %s)' % coq_str('%s#%d' % (n.value.id, i))
                 return '(EItem %s %d%%nat)' % (self.ex(n.value), i)
-            if isinstance(s, (ast.Slice, ast.Tuple)):
+            if isinstance(s, ast.Slice):
+                if s.step is not None:
+                    fail('slice step', n)
+
+                def bound(b):
+                    if b is None:
+                        return 'None'
+                    if isinstance(b, ast.Constant) and isinstance(b.value, int) and not isinstance(b.value, bool):
+                        return '(Some (%d)%%Z)' % b.value
+                    if isinstance(b, ast.UnaryOp) and isinstance(b.op, ast.USub) and isinstance(b.operand, ast.Constant) \
+                            and isinstance(b.operand.value, int) and not isinstance(b.operand.value, bool):
+                        return '(Some (%d)%%Z)' % (-b.operand.value)
+                    fail('slice bounds must be integer literals', n)
+                return '(ESlice %s %s %s)' % (bound(s.lower), bound(s.upper), self.ex(n.value))
+            if isinstance(s, ast.UnaryOp) and isinstance(s.op, ast.USub) and isinstance(s.operand, ast.Constant) \
+                    and isinstance(s.operand.value, int) and not isinstance(s.operand.value, bool) and s.operand.value > 0:
+                return '(EItemZ %s (%d)%%Z)' % (self.ex(n.value), -s.operand.value)
+            if isinstance(s, ast.Tuple):
                 fail('unsupported index', n)
             return '(EMask %s %s)' % (self.ex(n.value), self.ex(s))
         if isinstance(n, ast.Call):
@@ -183,7 +216,8 @@ class Fn:
             fail('unsupported method', n)
         one = {'np.sum': 'ERed RSum', 'sum': 'ERed RSum', 'np.count_nonzero': 'ERed RCount', 'len': 'ERed RSize',
                'np.abs': 'EUn UAbs', 'np.absolute': 'EUn UAbs', 'abs': 'EUn UAbs', 'np.floor': 'EUn UFloor',
-               'np.any': 'ERed RAny', 'np.all': 'ERed RAll', 'float': 'EPyFloat', 'bool': 'EPyBool'}
+               'np.any': 'ERed RAny', 'np.all': 'ERed RAll', 'float': 'EPyFloat', 'bool': 'EPyBool',
+               'np.median': 'ERed RMedian', 'np.mean': 'ERed RMean'}
         if name in one:
             self.no_kw(n, 1)
             return '(%s %s)' % (one[name], self.ex(n.args[0]))
@@ -202,6 +236,11 @@ class Fn:
                 a, b = self.pair_of(n.args[0])
                 return '(EBin %s %s %s)' % ('BMin' if name == 'np.min' else 'BMax', self.ex(a), self.ex(b))
             fail('unsupported form of np.min / np.max', n)
+        if name == 'np.concatenate':
+            self.no_kw(n, 1)
+            if not (isinstance(n.args[0], ast.List) and n.args[0].elts):
+                fail('np.concatenate needs a list literal of arrays', n)
+            return '(EConcat [%s])' % '; '.join(self.ex(x) for x in n.args[0].elts)
         if name == 'np.asarray':
             if len(n.args) != 1 or set(kws) != {'dtype'} or ast.unparse(kws['dtype']) not in FLOATS:
                 fail('only np.asarray(x, dtype=float) is accepted', n)
@@ -236,10 +275,11 @@ class Fn:
     def harmless(self, node):
         """arguments of an exception constructor: literals, names, .shape[0]/.size, '...'.format(...)"""
         for m in ast.walk(node):
-            ok = isinstance(m, (ast.Constant, ast.Name, ast.Load, ast.Attribute, ast.Subscript, ast.Call))
+            ok = isinstance(m, (ast.Constant, ast.Name, ast.Load, ast.Attribute, ast.Subscript, ast.Call, ast.JoinedStr, ast.FormattedValue))
             if isinstance(m, ast.Call):
-                ok = isinstance(m.func, ast.Attribute) and m.func.attr == 'format' and isinstance(m.func.value, ast.Constant) \
-                    and not m.keywords
+                ok = (isinstance(m.func, ast.Attribute) and m.func.attr == 'format' and isinstance(m.func.value, ast.Constant)
+                      and not m.keywords) or (ast.unparse(m.func) in ('np.max', 'np.min', 'type', 'len') and len(m.args) == 1
+                                              and isinstance(m.args[0], ast.Name) and not m.keywords)
             if not ok:
                 return False
         return True
@@ -374,7 +414,7 @@ class Fn:
 def check_module(tree, mod):
     """np / warnings are the usual imports; the validators called are top-level functions defined once"""
     imports = [(al.name, al.asname) for n in tree.body if isinstance(n, ast.Import) for al in n.names]
-    if ('numpy', 'np') not in imports or ('warnings', None) not in imports:
+    if ('numpy', 'np') not in imports or (('warnings', None) not in imports and mod != 'alignment'):
         raise TranslationError('vecfuncs: %s: numpy / warnings are not imported as expected' % mod)
     for (m, name) in VALIDATORS:
         if m == mod:
